@@ -849,3 +849,17 @@ mutant("alg-cycle-reshape-transposed", "C06", GRAPH, """        is_passed_flat =
         return is_passed_flat.reshape((is_active_edge.width + 1, is_active_edge.height + 1))""", "ALG-9")
 variant("enc-path-degree-range", "C06", GRAPH, "            solver.ensure(is_passed[i].then((degree == 1) | (degree == 2)))", "            solver.ensure(is_passed[i].then((degree == 2) | (degree == 1)))")
 variant("enc-cycle-rank-flipped", "C06", GRAPH, "                            is_active_edge[e] & (rank[j] >= rank[i])", "                            (rank[i] <= rank[j]) & is_active_edge[e]")
+
+# ---- C07 ---------------------------------------------------------------------------------------
+# `is_root.then(rank == 0)` is equivalent: a non-root needs a strictly lower neighbour, so it cannot have rank 0
+mutant("enc-grp-root-id", "C07", GRAPH, "        solver.ensure(is_root[i].then(group_id[i] == i))", "        solver.ensure(is_root[i].then(group_id[i] >= 0))", "ENC-S")
+mutant("enc-grp-edge-id", "C07", GRAPH, "        solver.ensure(is_active_edge[i].then(group_id[u] == group_id[v]))\n    if group_size is not None:", "        solver.ensure(is_active_edge[i].then(group_id[u] >= group_id[v]))\n    if group_size is not None:", "ENC-S")
+mutant("enc-grp-parent-count", "C07", GRAPH, "                [is_active_edge[e] & (rank[j] < rank[i]) for j, e in graph.incident_edges[i]]\n            )\n            == is_root[i].cond(0, 1)", "                [is_active_edge[e] & (rank[j] < rank[i]) for j, e in graph.incident_edges[i]]\n            )\n            >= is_root[i].cond(0, 1)", "ENC-S")
+mutant("enc-grp-size-plus", "C07", GRAPH, "                + 1\n                == downstream_size[i]", "                + 0\n                == downstream_size[i]", "ENC-S")
+mutant("enc-grp-size-direction", "C07", GRAPH, "(is_active_edge[e] & (rank[j] > rank[i])).cond(downstream_size[j], 0)", "(is_active_edge[e] & (rank[j] < rank[i])).cond(downstream_size[j], 0)", "ENC-S")
+mutant("enc-grp-root-total", "C07", GRAPH, "        solver.ensure(is_root.then(downstream_size == total_size))", "        solver.ensure(is_root.then(downstream_size <= total_size))", "ENC-S")
+mutant("enc-grp-total-propagation", "C07", GRAPH, "                solver.ensure(is_active_edge[i].then(s == t))\n    return group_id", "                pass\n    return group_id", "ENC-S")
+mutant("enc-grp-border-eq", "C07", GRAPH, "            solver.ensure(is_border[i] == (group_id[u] != group_id[v]))", "            solver.ensure(is_border[i].then(group_id[u] != group_id[v]))", "ENC-S", "non-border edges may join different groups")
+mutant("enc-grp-returns-rank", "C07", GRAPH, "                solver.ensure(is_active_edge[i].then(s == t))\n    return group_id", "                solver.ensure(is_active_edge[i].then(s == t))\n    return rank", "ENC-S")
+mutant("alg-borders-not-dual", "C07", GRAPH, "        edges, graph = _from_grid_frame(is_border.dual())\n        _division_connected_variable_groups_with_borders(", "        edges, graph = _from_grid_frame(BoolGridFrame(solver, is_border.height - 1, is_border.width - 1, horizontal=is_border.horizontal, vertical=is_border.vertical) if False else is_border.dual())\n        edges = list(reversed(edges))\n        _division_connected_variable_groups_with_borders(", "ALG-4D")
+variant("enc-grp-flipped", "C07", GRAPH, "                [is_active_edge[e] & (rank[j] < rank[i]) for j, e in graph.incident_edges[i]]\n            )\n            == is_root[i].cond(0, 1)", "                [(rank[i] > rank[j]) & is_active_edge[e] for j, e in graph.incident_edges[i]]\n            )\n            == is_root[i].cond(0, 1)")
